@@ -151,5 +151,68 @@ pub fn generate(a: &Args) {
             Err(m) => out.ev("Search", "panic", json!({"cfg": mkn_json(c), "start": start, "tries": tries, "msg": m})),
         }
     }
+    util_events(&mut out, &mut rng, th);
     out.finish();
+}
+
+/// util.rs through the cfg-guarded hook (`ldpc_toolbox::verif_hooks`): items are (original index, key), compared by key only
+fn util_events(out: &mut Out, rng: &mut Rng, th: bool) {
+    use ldpc_toolbox::rand::{Rng as LRng, SeedableRng};
+    use ldpc_toolbox::verif_hooks::{SortedRandomSel, compare_some};
+    let sel = |keys: &[i64], n: usize, seed: u64| -> Value {
+        let v: Vec<(usize, i64)> = keys.iter().copied().enumerate().map(|(i, k)| (i + 1, k)).collect();
+        match v.sort_by_random_sel(n, |a, b| a.1.cmp(&b.1), &mut LRng::seed_from_u64(seed)) {
+            Some(r) => json!({"none": false, "sel": r.iter().map(|x| x.0).collect::<Vec<_>>()}),
+            None => json!({"none": true, "sel": []}),
+        }
+    };
+    let min = |keys: &[i64], seed: u64| -> i64 {
+        let v: Vec<(usize, i64)> = keys.iter().copied().enumerate().map(|(i, k)| (i + 1, k)).collect();
+        v.sort_by_random_min(|a, b| a.1.cmp(&b.1), &mut LRng::seed_from_u64(seed)).map(|x| x.0 as i64).unwrap_or(-1)
+    };
+    let ncases = if th { 6000 } else { 1200 };
+    for i in 0..ncases {
+        // short vectors over few keys (many ties); every n from 0 to len + 1
+        let len = if i < 40 { i % 4 } else { rng.below(11) };
+        let nkeys = 1 + rng.below(4) as i64;
+        let keys: Vec<i64> = (0..len).map(|_| rng.range(0, nkeys)).collect();
+        let seed = rng.next() % 100_000;
+        let n = if i % 7 == 0 { len + 1 } else if len == 0 { 0 } else { rng.below(len + 1) };
+        out.new_case();
+        match guarded(|| {
+            let res = sel(&keys, n, seed);
+            let again = sel(&keys, n, seed);
+            let mut all: Vec<String> = (0..64u64).map(|s| sel(&keys, n, seed + s).to_string()).collect();
+            all.sort();
+            all.dedup();
+            (res, again, all.len())
+        }) {
+            Ok((res, again, distinct)) => out.ev("Sel", "ok", json!({"keys": keys, "n": n, "seed": seed, "res": res, "again": again, "distinct": distinct})),
+            Err(m) => out.ev("Sel", "panic", json!({"keys": keys, "n": n, "seed": seed, "msg": m})),
+        }
+        out.new_case();
+        match guarded(|| {
+            let res = min(&keys, seed);
+            let again = min(&keys, seed);
+            let mut all: Vec<i64> = (0..64u64).map(|s| min(&keys, seed + s)).collect();
+            all.sort();
+            all.dedup();
+            (res, again, all.len())
+        }) {
+            Ok((res, again, distinct)) => out.ev("Min", "ok", json!({"keys": keys, "seed": seed, "res": res, "again": again, "distinct": distinct})),
+            Err(m) => out.ev("Min", "panic", json!({"keys": keys, "seed": seed, "msg": m})),
+        }
+    }
+    // compare_some, exhaustively over None (-1) and 0..3
+    for x in -1i64..4 {
+        for y in -1i64..4 {
+            out.new_case();
+            let ox = if x < 0 { None } else { Some(x) };
+            let oy = if y < 0 { None } else { Some(y) };
+            match guarded(|| compare_some(&ox, &oy) as i8 as i64) {
+                Ok(r) => out.ev("Cmp", "ok", json!({"x": x, "y": y, "res": r})),
+                Err(m) => out.ev("Cmp", "panic", json!({"x": x, "y": y, "msg": m})),
+            }
+        }
+    }
 }
